@@ -274,6 +274,8 @@ struct Step {
     dims: Dims,
     access_other: bool,
     behaviour: Behaviour,
+    /// validate for this service instead of the one the credential is scoped to
+    service_override: Option<&'static str>,
 }
 
 fn history_alphabet(thorough: bool) -> Vec<Step> {
@@ -303,9 +305,13 @@ fn history_alphabet(thorough: bool) -> Vec<Step> {
     let mut out = Vec::new();
     for (n, d, o) in &reqs {
         for b in &behs {
-            out.push(Step { name: n, dims: *d, access_other: *o, behaviour: b.clone() });
+            out.push(Step { name: n, dims: *d, access_other: *o, behaviour: b.clone(), service_override: None });
         }
     }
+    // a valid request presented to a validation configured for another service: refused at the scope rule,
+    // provider untouched — also right after the same credential was accepted for its own service
+    out.push(Step { name: "valid-but-other-service", dims: z, access_other: false, behaviour: behs[0].clone(), service_override: Some("beta") });
+    out.push(Step { name: "valid-but-other-service-query", dims: Dims { query_carrier: true, ..z }, access_other: false, behaviour: behs[0].clone(), service_override: Some("beta") });
     out
 }
 
@@ -320,7 +326,10 @@ fn step_outcome(step: &Step, provider: &mut Provider) -> (String, usize) {
         g.log.clear();
         g.ready_since_call = false;
     }
-    let case = c13::materialize(&step.dims).unwrap();
+    let mut case = c13::materialize(&step.dims).unwrap();
+    if let Some(svc) = step.service_override {
+        case.cfg.service = svc.to_string();
+    }
     let _ = step.access_other;
     let r = sut::validate(&case.wire, &case.cfg, provider);
     let calls = provider.calls().len();
